@@ -1,0 +1,50 @@
+//! Verification hooks (only compiled with the `verif_hooks` feature).
+//!
+//! * a step counter ("fuel") bumped by the parser cursor primitives, so that a verification
+//!   harness can observe non-termination and super-polynomial work deterministically;
+//! * probes for the crate-private path helpers.
+
+use std::cell::Cell;
+
+thread_local! {
+    static FUEL_LIMIT: Cell<u64> = Cell::new(u64::MAX);
+    static FUEL_USED: Cell<u64> = Cell::new(0);
+}
+
+/// The marker contained in the panic message when the fuel is exhausted.
+pub const FUEL_MARKER: &str = "VERIF-FUEL";
+
+/// Reset the step counter and set the limit for the current thread.
+pub fn set_fuel(limit: u64) {
+    FUEL_LIMIT.with(|x| x.set(limit));
+    FUEL_USED.with(|x| x.set(0));
+}
+
+/// Steps used since the last `set_fuel` on the current thread.
+pub fn fuel_used() -> u64 {
+    FUEL_USED.with(|x| x.get())
+}
+
+#[inline]
+pub(crate) fn step() {
+    let used = FUEL_USED.with(|x| {
+        let v = x.get() + 1;
+        x.set(v);
+        v
+    });
+    if used > FUEL_LIMIT.with(|x| x.get()) {
+        // disarm, so that unwinding code paths do not panic again
+        FUEL_LIMIT.with(|x| x.set(u64::MAX));
+        panic!("{} exhausted after {} steps", FUEL_MARKER, used);
+    }
+}
+
+/// Probe for `path::normalize`.
+pub fn normalize(path: &str) -> String {
+    crate::path::normalize(path)
+}
+
+/// Probe for `path::resolve`.
+pub fn resolve(base: &str, rel: &str) -> String {
+    crate::path::resolve(base, rel)
+}
